@@ -18,6 +18,10 @@ claimed = {
    text="Proof of the issuance/redemption rule and the lending cap on the real handlers: Bond mints exactly RoundInt(amount / liveRate) shares to the depositor (liveRate = TotalValue/share supply read at the call, 1 for an empty vault) and takes exactly the deposit; Unbond burns the shares and pays exactly RoundInt(shares * liveRate), lowering TotalValue by the same figure; GetRedemptionRate is value per share; Borrow refuses any loan with 10*(outstanding+amount) > 9*TotalValue (exact integer statement). The quantitative round-trip/dilution bounds (one share's worth) are NOT proved here: they need a numerical-analysis argument over nested 18-digit roundings that the solvers do not decide (tried in design, §1); what is proved is that both directions use the same live rate with the stated rounding, which is what a change of rate source, rounding direction or ordering breaks.",
    note=COMMON_NOTE + "Fixed-point products/quotients of two symbolic operands are uninterpreted (sign/zero/unit facts only) in these obligations; postconditions are stated over the same terms. Hook effects come from call-graph frame inference.",
    ref="§8 C07"),
+ "C08": dict(
+   text="Proof by induction over the leveragelp writers, unbounded in amounts and in the number of pools and positions: two ghost aggregates maintained by the table-write semantics (per-pool sum of the stored positions' LeveragedLpAmount, number of stored positions) and the gap contracts `pool.LeveragedLpAmount - sum` and `OpenPositionCount - count` unchanged across SetPosition/DestroyPosition (counter), ProcessOpenLong, OpenLong, OpenConsolidate, Open, ForceCloseLong (with: full close removes the row, partial close keeps exactly the rest), CloseLong, Close, CheckAndLiquidateUnhealthyPosition and CheckAndCloseAtStopLoss (on EVERY exit, since their callers swallow errors), ClosePositions, BeginBlocker, AddPool, RemovePool, UpdateStopLoss, add-collateral; row-level frames on the close helpers; a closure scan on the SSA call graph shows that every function writing the leveragelp store, and every caller of a function under contract up to the entry points, is under contract. The per-position shares-at-the-position-address clause of the statement is NOT claimed (it needs functional contracts on amm join/exit and the commitment ledger together). A genuine defect (a liquidation failing midway was committed by the callers that log the error and go on) was found by a failing obligation, reproduced on the real keeper and repaired by a fix: commit.",
+   note=COMMON_NOTE + "BeginBlocker's page of positions is bounded to 2 entries and ClosePositions' two request lists to 1 entry each (labelled bounded); GetPositions' postcondition (a page of stored rows without repeats) is trusted (SDK pagination); amm JoinPoolNoSwap/ExitPool, masterchef ClaimRewards, GetPositionHealth and LpTokenPrice enter by frame-only contracts checked against the call-graph inference; `OpenPositionCount > 0 whenever a position exists` and `no row is stored above the id counter` are assumed at entry (consequences of the invariant itself and of id allocation). Genesis and migrations are outside the claim.",
+   ref="§8 C08"),
  "C12": dict(
    text="Proof, with the per-account ledger collections bounded to 2 entries x 2 lock-ups in the type-level obligations (labelled bounded in the evidence) and unbounded at keeper level: AddCommittedTokens/DeductFromCommitted/GetCommittedAmountForDenom against the ledger spec functions (exact committed delta, lock-up recorded, lock respected unless liquidation, no overdraw); CommitLiquidTokens/UncommitTokens keep Params.TotalCommitted - Σ committed, the account delta, and module custody - Σ committed - Σ claimed exactly, for every denom except Eden/EdenB (whose hooks enter the SDK). One genuine defect is recorded as a known finding (UncommitTokens adds to TotalCommitted).",
    note=COMMON_NOTE + "CommitmentChanged hook frame is checked against the estaking implementation; other commitment hooks are read as arbitrary state change. Eden/EdenB paths are not claimed.",
